@@ -50,7 +50,8 @@ pub fn profile(id: &str) -> Profile {
             p.double_wake_pct = 40;
         }
         "C07" => {
-            p.opw = OpW { futdesync: 12, after: 6, await_: 10, syncwait: 5, pollonce: 6, dropfut: 5, detach: 3, desync: 4, sync: 3, futsync: 1, trysync: 1, ..OpW::default() };
+            p.opw = OpW { futdesync: 12, after: 6, await_: 10, syncwait: 5, pollonce: 6, dropfut: 5, detach: 3, desync: 4, sync: 3, futsync: 1, trysync: 1, awaitjoin: 6, ..OpW::default() };
+            p.lifecycle_pct = 20;
             p.objects = (1, 2);
             p.callers = (2, 4);
             p.gates = (1, 3);
@@ -241,7 +242,7 @@ pub fn panic_case(p: &Profile) -> BoxedStrategy<Case> {
     healthy.stepw = StepW { awaitgate: 0, opengate: 0, blockongate: 0, nested_sync: 0, nested_desync: 1, nested_futdesync: 0, awaitfutsync: 0, awaitfutdesync: 0, ..StepW::default() };
     let bystanders = vec(vec(op_strategy(&healthy), 0..=3), 0..=2);
     let phase2 = vec(vec(op_strategy(&healthy), 1..=4), 1..=3);
-    (1u8..=3, 2u8..=4, 0u8..13, bystanders, phase2, sched_strategy(p.sched_bytes), prop::bool::weighted(0.3), vec(0u8..5, 1..=3), (prop::bool::weighted(0.3), vec((any::<u8>(), 0u8..4), 0..=2), prop::bool::weighted(0.2))).prop_map(|(pool, objects, ctx, mut by, mut ph2, sched, unlock_points, attempts, (quiet, parked, second))| {
+    (1u8..=3, 2u8..=4, 0u8..15, bystanders, phase2, sched_strategy(p.sched_bytes), prop::bool::weighted(0.3), vec(0u8..5, 1..=3), (prop::bool::weighted(0.3), vec((any::<u8>(), 0u8..4), 0..=2), prop::bool::weighted(0.2))).prop_map(|(pool, objects, ctx, mut by, mut ph2, sched, unlock_points, attempts, (quiet, parked, second))| {
         // the panicking op and its runner context
         let mut callers: Vec<Vec<Op>> = vec![];
         let panic_body = vec![Step::Touch, Step::Yield, Step::Panic];
@@ -295,6 +296,13 @@ pub fn panic_case(p: &Profile) -> BoxedStrategy<Case> {
             12 => {
                 callers.push(vec![Op::Desync { o: 0, body: vec![Step::NestedSync { o: 254, body: vec![Step::Touch], id: 0 }, Step::Yield, Step::Panic], id: 0 }]);
                 guard_syncs = true;
+            }
+            // the closure of a sync() panics while somebody else runs it for the caller: the call was made while a pool thread was
+            // running the queue (13) or while another sync() caller was (14). The caller must be released and panic in turn.
+            13 => callers.push(vec![Op::Desync { o: 0, body: vec![Step::Yield, Step::Yield, Step::Yield], id: 0 }, Op::Sync { o: 0, body: panic_body, id: 0 }]),
+            14 => {
+                callers.push(vec![Op::Sync { o: 0, body: vec![Step::Yield, Step::Yield, Step::Yield], id: 0 }]);
+                callers.push(vec![Op::Yield, Op::Sync { o: 0, body: panic_body, id: 0 }]);
             }
             // a plain job that holds a handle on a healthy object panics: the handle is released while unwinding
             _ => callers.push(vec![Op::Desync { o: 0, body: vec![Step::NestedDesync { o: 255, body: vec![Step::Touch], id: 0 }, Step::Yield, Step::Panic], id: 0 }]),
